@@ -636,13 +636,20 @@ def intarr_pow_fails(case, ctx=None):
                     idx, r.dtype, int(rb[idx]), x[0][(slice(None),) + idx].tolist(), y.data[sel].ravel().tolist()[:6], want.ravel().tolist()[:6])
         if ctx is not None:
             # the tie of the model the theorem C02.pow_int_array_entry is about: masked products up to the largest exponent
-            rmax = int(r.astype(int).max())
+            rmax = int(np.abs(r.astype(int)).max())
             for e in sorted(set(int(v) for v in rb.ravel())):
-                lv = [enc_arr(np.zeros(x[0].shape))] * (rmax - e)
-                m = ctx.model.arrs({'op': 'ew1', 'fn': 'powmask', 'x': enc_arr(x), 'leaves': lv, 'params': [], 'n': e})
+                lv = [enc_arr(np.zeros(x[0].shape))] * (rmax - abs(e))
+                m = ctx.model.arrs({'op': 'ew1', 'fn': 'powmask', 'x': enc_arr(x), 'leaves': lv, 'params': [], 'n': abs(e)})
                 if isinstance(m, str):
                     return 'intarr-pow-model: the model rejected the case (%s)' % m[:80]
                 mask = np.broadcast_to(rb == e, x.shape)
+                if e < 0:
+                    # a negative exponent: the reciprocal series of the masked product (entries with a zero base point excluded)
+                    mm = np.asarray(m[0], dtype=float)
+                    mm[:, ~np.broadcast_to(rb == e, x.shape)[0]] = 1.0
+                    m = ctx.model.arrs({'op': 'ew1', 'fn': 'recip', 'x': enc_arr(mm), 'leaves': [], 'params': []})
+                    if isinstance(m, str):
+                        return 'intarr-pow-model: the model rejected the case (%s)' % m[:80]
                 if not np.allclose(y.data[mask], np.asarray(m[0], dtype=float)[mask], rtol=1e-12, atol=1e-13):
                     return 'mismatch-intarr-pow: entries with exponent %d differ from the masked-product model (largest exponent %d)' % (e, rmax)
     return None
@@ -661,6 +668,9 @@ def systematic_intarr_pow(ctx):
             r = np.array([rng.choice([0, 1] if dtype == 'bool' else [0, 1, 2, 3, 4]) for _ in range(int(np.prod(shp)))]).reshape(shp)
             if dtype != 'bool' and rs != 'one':
                 r.reshape(-1)[0] = 2
+            if dtype in ('int64', 'int32') and rs == 'same':
+                r.reshape(-1)[-1] = -1                 # mixed signs: a negative exponent elsewhere in the array (non-zero base there)
+                r.reshape(-1)[-2] = -2 if r.size > 2 else r.reshape(-1)[-2]
             case = {'op': 'intarr-pow', 'D': D, 'P': P, 'x': x, 'r': r.tolist(), 'dtype': dtype}
             ctx.evaluations += 1
             ctx.count('pow:int-array')
